@@ -94,8 +94,11 @@ def make_open(env: FsEnv):
         if buffering == 1 and text:
             line_buffering = True
             buffering = -1
+        wb = getattr(env, "write_buffer", None)
         if buffering < 0:
             buffering = io.DEFAULT_BUFFER_SIZE
+            if wb and "r" not in modes:
+                buffering = wb  # tuning knob: a small buffer stands for a record larger than the default one
         if buffering == 0:
             if text:
                 raise ValueError("can't have unbuffered text I/O")
@@ -109,6 +112,8 @@ def make_open(env: FsEnv):
         if not text:
             return buf
         t = io.TextIOWrapper(buf, encoding or "utf-8", errors, newline, line_buffering)
+        if wb and "r" not in modes:
+            t._CHUNK_SIZE = max(1, wb)
         t.mode = mode
         return t
 
